@@ -22,8 +22,8 @@ func c10alphabet() []dop {
 	add("subs.Create(s2,m/a/b)", func(n *dnode) { n.st.Subscriptions().Create("s2", []byte("m/a/b"), 1) })
 	add("topics.Set(m/t)", func(n *dnode) { n.st.Topics().Set(pub("m/t", "from-"+n.name)) })
 	add("topics.Delete(m/t)", func(n *dnode) { n.st.Topics().Delete([]byte("m/t")) })
-	add("subs.Create(s2,m/a)", func(n *dnode) { n.st.Subscriptions().Create("s2", []byte("m/a"), 2) })
 	add("topics.Set(m/t/u)", func(n *dnode) { n.st.Topics().Set(pub("m/t/u", "from-"+n.name)) })
+	add("subs.Create(s2,m/a)", func(n *dnode) { n.st.Subscriptions().Create("s2", []byte("m/a"), 2) })
 	return ops
 }
 
@@ -45,7 +45,7 @@ func histories(n, max int) [][]int {
 
 func TestC10FullState(t *testing.T) {
 	ops := c10alphabet()
-	nops := vk.Pick(8, 10)
+	nops := vk.Pick(9, 10)
 	ops = ops[:nops]
 	maxA, maxB := 3, vk.Pick(1, 2)
 	shardedPhase(t, "C10", "C10/full-state-exchange", "E1-enum", "TestC10FullState", func(sh vk.Shard, rep *vk.Report) {
